@@ -86,3 +86,35 @@ def repHeader (h : Header) : Gen.message.IKEHeader :=
     ExchangeType := h.exch, Flags := h.flags, MessageID := h.mid, NextPayload := h.next, PayloadBytes := h.payloadBytes }
 
 end Ike.GenAbs
+
+namespace Ike.GenAbs
+open Ike
+
+/-- the `payload = new(S)` selected by the payload type in `IKEPayloadContainer.Decode`
+(for SK the walker also stores `b[0]` in `NextPayload`) -/
+def newPayload (t nx : UInt8) : Option Gen.message.IKEPayload :=
+  if t == Facts.typeSA then some (.SecurityAssociation {})
+  else if t == Facts.typeKE then some (.KeyExchange {})
+  else if t == Facts.typeIDi then some (.IdentificationInitiator {})
+  else if t == Facts.typeIDr then some (.IdentificationResponder {})
+  else if t == Facts.typeCERT then some (.Certificate {})
+  else if t == Facts.typeCERTreq then some (.CertificateRequest {})
+  else if t == Facts.typeAUTH then some (.Authentication {})
+  else if t == Facts.typeNiNr then some (.Nonce {})
+  else if t == Facts.typeN then some (.Notification {})
+  else if t == Facts.typeD then some (.Delete {})
+  else if t == Facts.typeV then some (.VendorID {})
+  else if t == Facts.typeTSi then some (.TrafficSelectorInitiator {})
+  else if t == Facts.typeTSr then some (.TrafficSelectorResponder {})
+  else if t == Facts.typeSK then some (.Encrypted { NextPayload := nx })
+  else if t == Facts.typeCP then some (.Configuration {})
+  else if t == Facts.typeEAP then some (.PayloadEap {})
+  else none
+
+def absMsg (m : Gen.message.IKEMessage) : Option Msg :=
+  (absPayloads m.Payloads).map (fun ps => ⟨absHeader m.IKEHeader, ps⟩)
+
+def repMsg (m : Msg) : Gen.message.IKEMessage :=
+  { IKEHeader := repHeader m.hdr, Payloads := m.payloads.map repPayload }
+
+end Ike.GenAbs
